@@ -12,11 +12,18 @@
 from typing import Any, Dict, List, Optional
 
 
-def make_location(parts: List[List[int]], strand: int = 1):
-    from antismash.common.secmet.locations import CompoundLocation, FeatureLocation
+def make_location(parts: List[List[int]], strand: int = 1, fuzzy: str = ""):
+    """ fuzzy: "<" the first coordinate is open ("<1..300"), ">" the last one is ("601..>900"), "<>" both """
+    from antismash.common.secmet.locations import AfterPosition, BeforePosition, CompoundLocation, FeatureLocation
+    low = min(s for s, _ in parts)
+    high = max(e for _, e in parts)
+
+    def part(start: int, end: int):
+        return FeatureLocation(BeforePosition(start) if "<" in fuzzy and start == low else start,
+                               AfterPosition(end) if ">" in fuzzy and end == high else end, strand)
     if len(parts) == 1:
-        return FeatureLocation(parts[0][0], parts[0][1], strand)
-    return CompoundLocation([FeatureLocation(s, e, strand) for s, e in parts])
+        return part(parts[0][0], parts[0][1])
+    return CompoundLocation([part(s, e) for s, e in parts])
 
 
 def build_record(spec: Dict[str, Any]):
@@ -24,7 +31,11 @@ def build_record(spec: Dict[str, Any]):
     from antismash.common.secmet.features import CDSFeature, Protocluster, SubRegion
     from antismash.common.secmet.qualifiers.gene_functions import GeneFunction
     annotations = {"molecule_type": "DNA", "topology": "circular" if spec.get("circular") else "linear"}
-    record = Record(spec["seq"], id=spec.get("id", "rec"), name=spec.get("name", spec.get("id", "rec")),
+    seq = spec["seq"]
+    if spec.get("seq_repeat"):
+        # a long sequence given compactly: a block repeated, then a tail
+        seq = spec["seq_repeat"]["block"] * int(spec["seq_repeat"]["times"]) + spec["seq_repeat"]["tail"]
+    record = Record(seq, id=spec.get("id", "rec"), name=spec.get("name", spec.get("id", "rec")),
                     description=spec.get("description", ""), annotations=annotations)
     for key, val in sorted((spec.get("annotations") or {}).items()):
         record.add_annotation(key, val)
@@ -42,7 +53,7 @@ def build_record(spec: Dict[str, Any]):
         first, later = genes, []
     for gene in first + later:
         size = sum(e - s for s, e in gene["parts"])
-        cds = CDSFeature(make_location(gene["parts"], gene["strand"]),
+        cds = CDSFeature(make_location(gene["parts"], gene["strand"], gene.get("fuzzy", "")),
                          translation=gene.get("translation") or "M" * max(1, size // 3),
                          locus_tag=gene["name"], product=gene.get("product", ""))
         for product in gene.get("cores", []):
